@@ -144,9 +144,9 @@ PROPS['C14'].update({
     'level': 'other',
     'units': ['aff_algebra'],
     'technique': 'Verus contracts on the extracted polytope operations of src/linalg/affine.rs against the real-arithmetic ndarray shim (membership equivalences for all x) + bounded replay (bc poly)',
-    'level_text': ('Mixed. PROVED modulo "f64 = reals" (Verus, all polytopes, all points, all dimensions): unbounded, empty, hypercube, axis_bounds / place_axis_bounds (incl. infinite bounds), '
+    'level_text': ('Mixed. PROVED modulo "f64 = reals" (Verus, all polytopes, all points, all dimensions): unbounded, empty, hypercube, hyperrectangle, axis_bounds / place_axis_bounds (incl. infinite bounds), '
                    'distance_raw == b - M x, translate (x in result <=> x - d in P), intersection (<=> in both), apply_pre (<=> f(x) in P), apply_post (<=> inverse (y - bias) in P), rotate (<=> R^T y in P). '
-                   'BOUNDED only (bc poly): intersection_n, hyperrectangle, cross_polytope, from_normal, simplex, distance (norms), contains (closure with tolerance).'),
+                   'BOUNDED only (bc poly): intersection_n, cross_polytope, from_normal, simplex, distance (norms), contains (closure with tolerance).'),
     'design_ref': 'DESIGN.md §4 C14',
     'assumptions': ASSUME_COMMON + ASSUME_ND + ASSUME_BC,
 })
